@@ -22,7 +22,7 @@ LabV(ve, n) ==
 LabC(c, n) == IF IsNone(c) THEN [v |-> c, n |-> n] ELSE [v |-> [c EXCEPT !.id = n], n |-> n + 1]
 LabSimple(s, n) ==   \* simple statements, initialisers and post statements
   IF IsNone(s) THEN [v |-> s, n |-> n]
-  ELSE CASE s.k \in {"eff", "passign", "effkv", "effkk", "effw", "retx", "pullit", "iife", "nestgen"} -> [v |-> [s EXCEPT !.id = n], n |-> n + 1]
+  ELSE CASE s.k \in {"eff", "passign", "effkv", "effkk", "effw", "retx", "pullit", "iife", "nestgen", "obscaps"} -> [v |-> [s EXCEPT !.id = n], n |-> n + 1]
          [] s.k = "yield" -> LET r == LabV(s.v, n) IN [v |-> [s EXCEPT !.v = r.v], n |-> r.n]
          [] s.k = "effx" -> LET r == LabV(s.v, n + 1) IN [v |-> [s EXCEPT !.id = n, !.v = r.v], n |-> r.n]
          [] s.k = "yfrom" -> LET r == LabV(s.arg, n) IN [v |-> [s EXCEPT !.arg = r.v], n |-> r.n]
@@ -68,7 +68,7 @@ T0 == [k |-> "t", id |-> 0]
 Jumps(A, ctx) == (IF "retx" \in A.jumps THEN {[k |-> "retx", id |-> 0]} ELSE {}) \cup {[k |-> j] : j \in A.jumps \cap ({"return"} \cup (IF ctx # "top" THEN {"break"} ELSE {})
                                                            \cup (IF InLoop(ctx) THEN {"continue"} ELSE {}))}
 \* an infinite loop must make progress: its first body statement spends budget, yields or leaves
-Productive(c, body) == ~IsNone(c) \/ (body # <<>> /\ Head(body).k \in {"eff", "effx", "unsup", "pullit", "iife", "nestgen", "yield", "ygen", "yfrom", "if", "switch", "break", "return", "retx", "panic"})
+Productive(c, body) == ~IsNone(c) \/ (body # <<>> /\ Head(body).k \in {"eff", "effx", "obscaps", "unsup", "pullit", "iife", "nestgen", "yield", "ygen", "yfrom", "if", "switch", "break", "return", "retx", "panic"})
 Case(g, body) == [g |-> g, body |-> body, ft |-> FALSE]
 \* initialisers of a tag switch: the optional field swinits of the alphabet (a yielding / delegating simple
 \* statement:  switch Yield(v); tag { .. }), otherwise the if-initialisers
